@@ -85,6 +85,11 @@ def corr_ops(ctx):
         name = '/q/' + G.file_name(rnd, ty)
         ctx._c07.append((ty, name, text))
         ops.append(f'convert\t{rnd.choice("01")}\t0\t{hx(name)}\t{hx(text)}')
+    # combinations of the keys each handler function looks at (incl. the [Service]/[Unit] keys it consults), groups read off the source
+    for ty, text, fn in G.group_units(rnd, ctx.tables, core.REPO, reps=2 if ctx.thorough else 1):
+        if '[Service]' in text or '[Unit]' in text or rnd.random() < 0.2:
+            ctx._c07.append((ty, '/q/g.' + ty, text))
+            ops.append(f'convert\t0\t0\t{hx("/q/g." + ty)}\t{hx(text)}')
     ctx._c07_ops = ops
     return ops
 
